@@ -6,6 +6,7 @@ import (
 	"go/parser"
 	"go/types"
 	"math/big"
+	"os"
 	"strconv"
 	"strings"
 )
@@ -17,17 +18,17 @@ type envVar struct {
 
 // Env is the elaboration environment of a contract expression.
 type Env struct {
-	vars    map[string]envVar
-	cells   map[string]*AddrV // captured variables: auto-dereferenced
-	old     *HeapView
-	cur     *HeapView
-	pkg     string
-	visited *MapIterV
-	qn      *int
-	assume  bool // the expression is being assumed (callee contract), not proved
-	inOld   bool      // inside old(...)
-	outer   *HeapView // the view outside the enclosing old(...), for cur(...)
-	allocBound *Term // "allocated(x)": x existed when the contract's function was entered
+	vars       map[string]envVar
+	cells      map[string]*AddrV // captured variables: auto-dereferenced
+	old        *HeapView
+	cur        *HeapView
+	pkg        string
+	visited    *MapIterV
+	qn         *int
+	assume     bool      // the expression is being assumed (callee contract), not proved
+	inOld      bool      // inside old(...)
+	outer      *HeapView // the view outside the enclosing old(...), for cur(...)
+	allocBound *Term     // "allocated(x)": x existed when the contract's function was entered
 }
 
 func (env *Env) child() *Env {
@@ -225,6 +226,16 @@ func (st *State) elab(env *Env, e *Expr) (SVal, types.Type) {
 					}
 				}
 			}
+		}
+		if os.Getenv("GOVC_DEBUG") != "" {
+			var ns []string
+			for k := range env.vars {
+				ns = append(ns, k)
+			}
+			for k := range env.cells {
+				ns = append(ns, "&"+k)
+			}
+			fmt.Fprintf(os.Stderr, "SCOPE: %v\n", ns)
 		}
 		st.unsupported("unknown identifier %q in contract", e.Name)
 	case "old":
